@@ -234,4 +234,104 @@ theorem parseTriples_of_decodes (inp : Bytes) (t : Tree) (rest : Bytes)
   rw [e, triplesLoop]
   simp
 
+/-! ### the converse: `parse_triples` fails whenever the decoder fails -/
+
+theorem triples_atom_err (b : UInt8) (rest : Bytes) (ops : List ParseOpRef) (st : TriplesSt)
+    (hb : ¬ (b.toNat == 0xff) = true) (e : Err) (hp : parseAtom rest b = .error e) :
+    ∃ e', triplesLoop true (b :: rest) (.parseObj :: ops) st = .error e' := by
+  rw [triplesLoop]
+  simp only [hb, Bool.false_eq_true, ↓reduceIte]
+  unfold parseAtom at hp
+  by_cases h7f : b.toNat ≤ 0x7f
+  · have h80 : ¬ (b.toNat == 0x80) = true := by simp; omega
+    by_cases h1 : (b.toNat == 0x01) = true
+    · simp [h1] at hp
+    · simp [h1, h80, parseAtomPtr, MAX_SINGLE_BYTE, h7f] at hp
+  · have h1 : ¬ (b.toNat == 0x01) = true := by simp; omega
+    simp only [h7f, if_false]
+    by_cases h80 : (b.toNat == 0x80) = true
+    · simp [h1, h80] at hp
+    · simp only [h1, h80, if_false, parseAtomPtr, MAX_SINGLE_BYTE, h7f, decodeSize] at hp
+      cases hd : decodeSizeWithOffset rest b.toNat with
+      | error e2 => exact ⟨e2, rfl⟩
+      | ok p =>
+        obtain ⟨off, size⟩ := p
+        simp only [hd] at hp
+        simp only [List.length_drop] at hp
+        by_cases hl : rest.length - (off - 1) < size
+        · refine ⟨.InternalError "copy terminated early", ?_⟩
+          simp [skipOrShaBytes, hl]
+        · simp [hl] at hp
+
+theorem triples_node_err : ∀ (f : Nat) (inp : Bytes) (e : Err),
+    inp.length < f → parseTree f inp = .error e →
+    ∀ (ops : List ParseOpRef) (st : TriplesSt), st.treeHashes.length = st.r.length →
+      ∃ e', triplesLoop true inp (.parseObj :: ops) st = .error e' := by
+  intro f
+  induction f with
+  | zero => intro inp e h; omega
+  | succ f ih =>
+    intro inp e hlen hp ops st hst
+    cases inp with
+    | nil => exact ⟨.SerializationError, by rw [triplesLoop]⟩
+    | cons b tl =>
+      simp only [List.length_cons] at hlen
+      rw [parseTree] at hp
+      by_cases hb : (b.toNat == 0xff) = true
+      · simp only [hb, CONS_BOX_MARKER, if_true] at hp
+        have hstep : triplesLoop true (b :: tl) (.parseObj :: ops) st
+            = triplesLoop true tl
+                (.parseObj :: .saveRightIndex st.r.length :: .parseObj :: .saveEnd st.r.length :: ops)
+                { r := st.r ++ [.pair st.cursor 0 0], treeHashes := st.treeHashes ++ [zero32],
+                  cursor := st.cursor + 1 } := by
+          rw [triplesLoop]; simp [hb]
+        cases h1 : parseTree f tl with
+        | error e1 =>
+          obtain ⟨e', he⟩ := ih tl e1 (by omega) h1
+            (.saveRightIndex st.r.length :: .parseObj :: .saveEnd st.r.length :: ops)
+            { r := st.r ++ [.pair st.cursor 0 0], treeHashes := st.treeHashes ++ [zero32],
+              cursor := st.cursor + 1 } (by simp [hst])
+          exact ⟨e', by rw [hstep, he]⟩
+        | ok p1 =>
+          obtain ⟨l, r1⟩ := p1
+          have hl1 := parseTree_length _ _ _ _ h1
+          simp only [h1] at hp
+          cases h2 : parseTree f r1 with
+          | ok p2 => obtain ⟨r, r2⟩ := p2; simp [h2] at hp
+          | error e2 =>
+            obtain ⟨tsl, cur1, hlenl, el⟩ := triples_node f tl l r1 (by omega) h1
+              (.saveRightIndex st.r.length :: .parseObj :: .saveEnd st.r.length :: ops)
+              { r := st.r ++ [.pair st.cursor 0 0], treeHashes := st.treeHashes ++ [zero32],
+                cursor := st.cursor + 1 } (by simp [hst])
+            simp only [List.append_assoc, List.cons_append, List.nil_append] at el
+            have e2' := step_saveRightIndex r1 (.parseObj :: .saveEnd st.r.length :: ops) st.r st.cursor 0 0 tsl
+              (st.treeHashes ++ zero32 :: hashList l) cur1
+            obtain ⟨e', he⟩ := ih r1 e2 (by omega) h2 (.saveEnd st.r.length :: ops)
+              { r := st.r ++ .pair st.cursor 0 (st.r.length + 1 + tsl.length) :: tsl,
+                treeHashes := st.treeHashes ++ zero32 :: hashList l, cursor := cur1 }
+              (by simp [hst, hashList_length, hlenl])
+            exact ⟨e', by rw [hstep, el, e2', he]⟩
+      · simp only [hb, CONS_BOX_MARKER] at hp
+        cases ha : parseAtom tl b with
+        | ok p => obtain ⟨n, t'⟩ := p; simp [ha] at hp
+        | error e1 => exact triples_atom_err b tl ops st hb e1 ha
+
+/-- whenever `parse_triples(f, true)` succeeds, `node_from_stream` succeeds on the same input with the
+same remainder, and the hashes are those of the decoded tree -/
+theorem decodes_of_parseTriples (inp : Bytes) (ts : List Triple) (hs : Option (List Bytes)) (rest : Bytes)
+    (h : parseTriples inp true = .ok (ts, hs, rest)) :
+    ∃ t, nodeFromStream inp [.sexp] [] = .ok (t, rest) ∧ hs = some (hashList t) ∧ ts.length = nodes t := by
+  cases hp : parseTree (inp.length + 1) inp with
+  | error e =>
+    obtain ⟨e', he⟩ := triples_node_err (inp.length + 1) inp e (by omega) hp [] {} rfl
+    simp [parseTriples, he] at h
+  | ok p =>
+    obtain ⟨t, rest'⟩ := p
+    have hd : nodeFromStream inp [.sexp] [] = .ok (t, rest') := by rw [nodeFromStream_eq_parseTree, hp]
+    obtain ⟨ts', hl, e⟩ := parseTriples_of_decodes inp t rest' hd
+    rw [e] at h
+    simp at h
+    obtain ⟨rfl, rfl, rfl⟩ := h
+    exact ⟨t, hd, rfl, hl⟩
+
 end Clvm.TreeHash
